@@ -594,6 +594,9 @@ def names_end_to_end(w, rep, tier, prop):
         cases.append(derived_name_case(rng, 'e%03d' % k, perm=rng.randrange(120), ch_async=(k % 2 == 1)))
     for k in range(2 if tier == 'quick' else 6):
         cases.append(transitive_case(rng, 'y%03d' % k, shadow_std=True, nfiles=1 + k % 2, other_used=(k // 2) % 2 == 0, args_first=(k % 2 == 1)))
+    # an import the user had to rename because a LATER file of the package declares an identifier with that name
+    for k, key in enumerate(('extptr', 'extval', 'genericext', 'mapext')[: (2 if tier == 'quick' else 4)]):
+        cases.append(gen_case(rng, 'z%03d' % k, types_keys=[key, rng.choice(['ptrstruct', 'string', 'slice'])], force_async=True, shadow_import=True, parallel=True))
     root, gres, post = run_cases(w, cli, cases, 'c12')
     ok = [c for c in cases if gres[c.id][0] == 0]
     out = names_of_cases(w, rep, root, ok, prop)
